@@ -68,19 +68,23 @@ def scenario(rng, nops, ndocs):
     docs = {}; ops = []; k = 0; rid = 0; uris = rng.sample(URIS, ndocs)
     if "file:///c20/a.spl" in uris and "untitled:///c20/a.spl" not in uris and rng.random() < .7: uris[-1] = "untitled:///c20/a.spl"
     npub = {}
+    big = rng.random() < .3
+    filler = "".join("proc filler%d(a: int, ref b: int) {\n    var c: int;\n    c := a * %d + b;\n    if (c < a) {\n        b := c;\n    } else {\n        b := a;\n    }\n}\n\n" % (j, j) for j in range(rng.choice([150, 400]))) if big else ""
     for i in range(nops):
         u = rng.choice(uris); c = rng.random()
         cur = docs.get(u)
         if cur is None:
             if c < .7:
                 k += 1; text = BASE.replace("helper(t, 1);\n", "helper(t, 1);\n" + marker_line(k, False)) if rng.random() < .8 else "// doc %d\n" % k + BASE
+                if big and rng.random() < .5: text = filler + text
                 docs[u] = text; ops.append({"op": "open", "uri": u, "text": text, "k": k}); npub[u] = npub.get(u, 0) + 1
                 continue
             c = .99   # otherwise read the closed document
         if c < .45:
             k += 1
             # insert a uniquely numbered statement at the start of a line inside main
-            lines = cur.split("\n"); body = [j for j, l in enumerate(lines) if l.startswith("    ") and j > cur[:cur.index("proc main")].count("\n")]
+            # (after the variable declarations of main, so that the document stays a valid program)
+            lines = cur.split("\n"); body = [j for j, l in enumerate(lines) if l.startswith("    ") and j > cur[:cur.index("    var t: T;")].count("\n")]
             j = rng.choice(body) if body else len(lines) - 1
             ins = marker_line(k, rng.random() < .15)
             ch = {"range": {"start": {"line": j, "character": 0}, "end": {"line": j, "character": 0}}, "text": ins}
@@ -93,7 +97,7 @@ def scenario(rng, nops, ndocs):
             docs[u] = None; ops.append({"op": "close", "uri": u})
         else:
             rid += 1
-            kind = rng.choice(["text", "text", "fold", "hover"])
+            kind = rng.choice(["text", "text", "fold", "hover", "format", "semtok"])
             if kind == "text": ops.append({"op": "read", "id": rid, "uri": u, "kind": "text", "expect": docs.get(u)})
             elif kind == "fold":
                 t = docs.get(u)
@@ -105,6 +109,9 @@ def scenario(rng, nops, ndocs):
                             e = next(x for x in range(j, len(ls)) if ls[x] == "}")
                             exp.append([j, e])
                 ops.append({"op": "read", "id": rid, "uri": u, "kind": "fold", "expect": exp})
+            elif kind in ("format", "semtok"):
+                # expensive requests between cheap ones: answered in order, from the document as written so far
+                ops.append({"op": "read", "id": rid, "uri": u, "kind": kind, "expect": docs.get(u)})
             else:
                 t = docs.get(u)
                 # hover on the most recent marker call: present exactly if that write has been applied
@@ -121,6 +128,8 @@ def to_message(op):
     if op["op"] == "change": return {"jsonrpc": "2.0", "method": "textDocument/didChange", "params": {"textDocument": {"uri": op["uri"], "version": op["k"]}, "contentChanges": op["changes"]}}
     if op["op"] == "close": return {"jsonrpc": "2.0", "method": "textDocument/didClose", "params": {"textDocument": {"uri": op["uri"]}}}
     if op["kind"] == "text": return {"jsonrpc": "2.0", "id": op["id"], "method": "$/verif/text", "params": {"uri": op["uri"]}}
+    if op["kind"] == "format": return {"jsonrpc": "2.0", "id": op["id"], "method": "textDocument/formatting", "params": {"textDocument": {"uri": op["uri"]}, "options": {"tabSize": 4, "insertSpaces": True}}}
+    if op["kind"] == "semtok": return {"jsonrpc": "2.0", "id": op["id"], "method": "textDocument/semanticTokens/full", "params": {"textDocument": {"uri": op["uri"]}}}
     if op["kind"] == "fold": return {"jsonrpc": "2.0", "id": op["id"], "method": "textDocument/foldingRange", "params": {"textDocument": {"uri": op["uri"]}}}
     return {"jsonrpc": "2.0", "id": op["id"], "method": "textDocument/hover", "params": {"textDocument": {"uri": op["uri"]}, "position": op["pos"]}}
 
@@ -203,6 +212,22 @@ def run_history(part, binpath, rng, nops, sc_seed):
                     def ks(t): return sorted(int(x.split("(")[1].split(")")[0]) for x in (t or "").split("\n") if x.strip().startswith(("printi(", "undefinedproc(")))
                     part.fail("%s: read %d of %s returned a text that reflects writes %r, the writes sent before it are %r%s" % (what, op["id"], op["uri"], ks(r) if r is not None else None, ks(op["expect"]) if op["expect"] is not None else None,
                               "" if (r is None) == (op["expect"] is None) else " (document %s)" % ("unknown to the server" if r is None else "should be closed")), sc); return
+            elif op["kind"] == "format":
+                t = op["expect"]
+                def ks(x): return [l.strip() for l in (x or "").split("\n") if l.strip().startswith(("printi(", "undefinedproc("))]
+                if t is None:
+                    if r is not None: part.fail("%s: formatting read %d answered %r for a closed document" % (what, op["id"], str(r)[:80]), sc); return
+                elif r is not None:
+                    if not isinstance(r, list) or len(r) != 1 or ks(r[0].get("newText")) != ks(t):
+                        part.fail("%s: formatting read %d of %s reflects writes %r, the writes sent before it are %r" % (what, op["id"], op["uri"], ks(r[0].get("newText")) if isinstance(r, list) and r else r, ks(t)), sc); return
+            elif op["kind"] == "semtok":
+                t = op["expect"]
+                if (t is None) != (r is None): part.fail("%s: semanticTokens read %d of %s answered %s, the document is %s" % (what, op["id"], op["uri"], "null" if r is None else "tokens", "closed" if t is None else "open"), sc); return
+                if t is not None:
+                    from .. import reflex
+                    want = sum(1 for k_, v_, a_, b_ in reflex.lex(t) if k_ in reflex.KEYWORDS or k_ in ("int", "hex", "char", "comment") or (k_ == "ident" and v_ != "undefinedproc"))
+                    got_n = len(r.get("data", [])) // 5
+                    if got_n != want: part.fail("%s: semanticTokens read %d of %s has %d tokens, the document written so far has %d classifiable tokens" % (what, op["id"], op["uri"], got_n, want), sc); return
             elif op["kind"] == "fold":
                 got = [[x["startLine"], x["endLine"]] for x in (r or [])]
                 if got != op["expect"]: part.fail("%s: foldingRange read %d of %s returned %r, the writes sent before it imply %r" % (what, op["id"], op["uri"], got, op["expect"]), sc); return
